@@ -4,9 +4,13 @@ import "strings"
 
 func init() {
 	register(&Property{ID: "C17",
-		Rule:  "byte strings of length 0..64 in structured classes (length field = len, len±1, 0, huge, 18, 19, len+2^16, len+2^24) plus random and longer buffers for the gate and the accessors; well-formed buffers with every other header field at the ends of its domain (next_position 0..4 and 2^32-1, type codes, flags); (stream level) every well-formed event truncated / extended, injected at every index of a generated history. Non-trivial: buffer reaches the length field (>= 13 bytes)",
-		Gen:   genC17pure,
-		Extra: func(c *Collector, r *RNG, tier string) { extraC17(c, r, tier); hugeCases(c, "event") },
+		Rule: "byte strings of length 0..64 in structured classes (length field = len, len±1, 0, huge, 18, 19, len+2^16, len+2^24) plus random and longer buffers for the gate and the accessors; well-formed buffers with every other header field at the ends of its domain (next_position 0..4 and 2^32-1, type codes, flags); (stream level) every well-formed event truncated / extended, injected at every index of a generated history. Non-trivial: buffer reaches the length field (>= 13 bytes)",
+		Gen:  genC17pure,
+		Extra: func(c *Collector, r *RNG, tier string) {
+			extraC17(c, r, tier)
+			hugeCases(c, "event")
+			invalidThenSilence(c, r, tier)
+		},
 		Replay: func(line string) []Case {
 			f := fields(line)
 			if strings.HasPrefix(line, "hdr ") {
